@@ -33,7 +33,7 @@ TRUSTED_BASE = [
     "hand-written model Refs/Model.v + Refs/PathFS.v, tied by harness/p9/c05_test.go, vhfs_*_test.go + Refs/Cases.v",
     "the harness backend vhfs (Go twin of PathFS.v), its call log and failure injection; lib/refs_cases.py (observations -> Coq terms)",
 ]
-HARNESS = ["vh_common_test.go", "vhfs_backend_test.go", "vhfs_driver_test.go", "vhfs_gen_test.go", "c05_test.go"]
+HARNESS = ["vh_common_test.go", "vhfs_backend_test.go", "vhfs_driver_test.go", "vhfs_gen_test.go", "vhfs_gated_test.go", "c05_test.go"]
 TEST = "^TestVerifC05$"
 
 
@@ -54,11 +54,16 @@ def run(ctx):
     if rc != 0 or not obs:
         # the subject may have crashed the test binary: what was observed until then is still evaluated
         ctx.harness_broken("harness %s failed (rc=%d)" % (TEST, rc), out)
+        ctx.crashed = True
         if not obs:
             return
-    for o in obs:
-        if o.get("broken"):
-            ctx.harness_broken("harness lost the connection to the server: %s" % o["broken"], str(o["steps"][-3:]))
+    lost = [o for o in obs if o.get("broken")]
+    if lost:
+        # the server stopped answering in the middle of a history (crash / hang of the subject): reported, the rest is evaluated
+        ctx.harness_broken("harness lost the connection to the server: %s" % lost[0]["broken"], str(lost[0]["steps"][-3:]))
+        ctx.crashed = True
+        obs = [o for o in obs if not o.get("broken")]
+        if not obs:
             return
     M, P = refs_cases.evaluate(ctx, ID, obs)
     for idx in P:
@@ -80,7 +85,7 @@ def run(ctx):
         "distinct_nontrivial": distinct,
         "rule": RULE,
         "correspondence": {"cases": len(obs), "mismatches": nm, "requests": nsteps, "backend_calls": ncalls, "by_request_kind": kinds,
-                           "with_injected_failure": sum(1 for o in obs if o["inject"]), "complete_disconnect": sum(1 for o in obs if o["complete"])},
+                           "with_injected_failure": sum(1 for o in obs if o["inject"]), "complete_disconnect": sum(1 for o in obs if o.get("complete")), "gated_scenarios": sum(1 for o in obs if o.get("gated"))},
         "samples": [slim(obs[0]), slim(obs[len(obs) // 2])],
     })
 
@@ -91,12 +96,12 @@ RULE = ("fixed corpus (xattr fids, failing multi-step walks, fid replacement, cr
 
 
 def slim(o):
-    return {k: o[k] for k in ("kind", "wga", "inject", "steps", "nhandles", "complete", "returned", "gdelta", "dump_at", "dump")}
+    return {k: o[k] for k in ("kind", "wga", "inject", "steps", "nhandles", "complete", "returned", "gdelta", "dump_at", "dump", "log", "probes") if k in o}
 
 
 def search(ctx):
-    if ctx.thorough:
-        return
+    if ctx.thorough or getattr(ctx, "crashed", False):
+        return  # a crashing / hanging subject is not made to crash again at the thorough budget
     ctx.tier = "thorough"
     ctx.thorough = True
     run(ctx)
